@@ -300,15 +300,28 @@ def sql_varid(prog: Program) -> RuleResult:
             tg = x.target if isinstance(x, ast.AugAssign) else (x.targets[0] if isinstance(x, ast.Assign) else None)
             if tg is not None and is_self_attr(tg):
                 marks.add(tg.attr)
+    # the mark has to survive nesting: an inner disjunction that finishes must leave it as the enclosing one set it (a counter that is
+    # incremented and decremented, or a saved value that is restored) - `self.mark = False` on the way out forgets the enclosing or_
+    nesting_safe = set()
+    if orf is not None:
+        for mk in marks:
+            writes = [x for x in walk_local(orf.node) if (isinstance(x, ast.AugAssign) and is_self_attr(x.target, mk)) or (isinstance(x, ast.Assign) and any(is_self_attr(t, mk) for t in x.targets))]
+            saved = {t.id for x in walk_local(orf.node) if isinstance(x, ast.Assign) and is_self_attr(x.value, mk) for t in x.targets if isinstance(t, ast.Name)}
+            incs = [x for x in writes if isinstance(x, ast.AugAssign) and isinstance(x.op, ast.Add)]
+            decs = [x for x in writes if isinstance(x, ast.AugAssign) and isinstance(x.op, ast.Sub)]
+            restores = [x for x in writes if isinstance(x, ast.Assign) and isinstance(x.value, ast.Name) and x.value.id in saved]
+            consts = [x for x in writes if isinstance(x, ast.Assign) and isinstance(x.value, ast.Constant)]
+            if (incs and decs and not consts) or (restores and len(consts) <= 1):
+                nesting_safe.add(mk)
     for jc in joins:
         jn = cfg.node_of(jc)
         guarded = False
         for t in cfg.nodes:
-            if t.kind == "test" and isinstance(t.stmt, ast.If) and cfg.dominates(t.id, jn) and any(is_self_attr(x) and x.attr in marks for x in ast.walk(t.stmt.test)):
+            if t.kind == "test" and isinstance(t.stmt, ast.If) and cfg.dominates(t.id, jn) and any(is_self_attr(x) and x.attr in nesting_safe for x in ast.walk(t.stmt.test)):
                 raises = [x for b in t.stmt.body for x in ast.walk(b) if isinstance(x, ast.Raise) and x.exc is not None]
                 if any(prog.is_subclass(j.module.resolve(x.exc.func if isinstance(x.exc, ast.Call) else x.exc) or "", err_base) for x in raises) and t.true_succ is not None and not cfg.dominates(t.true_succ, jn):
                     guarded = True
-        r.check(guarded, f"{j.short}#no-join-under-or", site(j, jc), src(jc)[:100], f"rejected when translate_or is active ({sorted(marks)})",
+        r.check(guarded, f"{j.short}#no-join-under-or", site(j, jc), src(jc)[:100], f"rejected while a disjunction is being translated (nesting-safe mark {sorted(nesting_safe)})",
                 "the equality is turned into an inner JOIN even inside a disjunction: the JOIN restricts every row and the equality disappears from the OR "
                 "(or_(f.parent == p.child, f.child.name == 'H1') returns nothing)")
     return r
@@ -478,5 +491,50 @@ def sql_membership(prog: Program) -> RuleResult:
     return r
 
 
+def sql_chain(prog: Program) -> RuleResult:
+    """(a) The base of an attribute chain: the walk over Attribute nodes stops at some node; if that node is another kind of domain mapping
+    (index, call, flatten) there is no column or relationship for the step and the chain must be rejected. (b) Collection literals: every
+    builtin collection kind that membership accepts in memory (list, tuple, set, frozenset) is unwrapped before it becomes IN (...)."""
+    r = RuleResult("SQL-CHAIN", "attribute chains start at a variable; collection literals of every kind are unwrapped", floor=3)
+    tr = prog.cls(TR)
+    err_base = prog.cls("eql_interface.EQLTranslationError").qual
+    dm = prog.cls("symbolic.DomainMapping")
+    attr = prog.cls("symbolic.Attribute")
+    steps = [c for c in prog.subclasses(dm.qual, strict=True) if not prog.is_abstract_class(c.qual) and not prog.is_subclass(c.qual, attr.qual)]
+    if len(steps) < 3:
+        raise AnalysisError("SQL-CHAIN: fewer than three non-attribute domain mappings found (Index, Call, Flatten are the confirmed instances)")
+    walkers = [m for m in tr.methods.values() if any(isinstance(x, ast.While) and "Attribute" in src(x.test) and "isinstance" in src(x.test) for x in walk_local(m.node)) and
+               any(isinstance(x, ast.Attribute) and x.attr == "_type_" for x in walk_local(m.node))]
+    if not walkers:
+        raise AnalysisError("SQL-CHAIN: the method that finds the base of an attribute chain vanished")
+    for m in walkers:
+        rejected = set()
+        for st in walk_local(m.node):
+            if isinstance(st, ast.If) and any(isinstance(x, ast.Raise) and x.exc is not None and prog.is_subclass(m.module.resolve(x.exc.func if isinstance(x.exc, ast.Call) else x.exc) or "", err_base) for b in st.body for x in ast.walk(b)):
+                for c in [x for x in ast.walk(st.test) if isinstance(x, ast.Call) and call_name(x) == "isinstance" and len(x.args) == 2]:
+                    kinds = c.args[1].elts if isinstance(c.args[1], ast.Tuple) else [c.args[1]]
+                    for k in kinds:
+                        q = m.module.resolve(k)
+                        rejected |= {x.name for x in steps if q and prog.is_subclass(x.qual, q)}
+        missing = sorted({x.name for x in steps} - rejected)
+        r.check(not missing, f"{m.short}#chain-base", site(m), f"non-attribute steps: {sorted(x.name for x in steps)}", "a chain whose base is an index / call / flatten step is rejected",
+                f"an attribute chain whose base is {missing} is translated from the type of that step alone: w.bodies[0].name == 'B' becomes select(WorldDAO).where(BodyDAO.name == 'B'), "
+                f"a cross join that selects rows in-memory evaluation rejects")
+    want = {"list", "tuple", "set", "frozenset"}
+    n = 0
+    for m in list(tr.methods.values()) + list(prog.cls("eql_interface.OperatorMapper").methods.values()):
+        if "contains" not in m.name:
+            continue
+        for c in [x for x in ast.walk(m.node) if isinstance(x, ast.Call) and call_name(x) == "isinstance" and len(x.args) == 2 and isinstance(x.args[1], ast.Tuple)]:
+            names = {src(k) for k in c.args[1].elts}
+            if names & want and len(names & want) >= 2:
+                n += 1
+                r.check(want - {"frozenset"} <= names, f"{m.short}#collection-kinds[{n}]", site(m, c), src(c), "lists, tuples and sets are treated as collections of values",
+                        f"{src(c)} recognises {sorted(names & want)} only: in_(b.name, {{'A', 'C'}}) hands the set itself to the database driver")
+    if n < 2:
+        raise AnalysisError("SQL-CHAIN: fewer than two collection-kind tests found in the membership translation")
+    return r
+
+
 def run(prog: Program, tier: str) -> List[RuleResult]:
-    return [sql_reject(prog), sql_ops(prog), sql_varid(prog), sql_alias(prog), sql_fetch(prog), sql_membership(prog)]
+    return [sql_reject(prog), sql_ops(prog), sql_varid(prog), sql_alias(prog), sql_fetch(prog), sql_membership(prog), sql_chain(prog)]
